@@ -1166,7 +1166,40 @@ fn c11_line_class(a: &str, b: &str) -> &'static str {
     }
 }
 
+/// the text with a 2-byte and a 3-byte character appended to every plain identifier (and put inside
+/// every single-line string literal): the token sequence keeps its kinds, every line gets longer in
+/// bytes than in characters
+pub fn non_ascii_variant(x: &str) -> String {
+    let mut o = String::with_capacity(x.len() * 2);
+    let mut pos = 0;
+    for t in r::scan(x) {
+        o.push_str(&x[pos..t.end]);
+        pos = t.end;
+        let txt = t.text(x);
+        match t.kind {
+            Kind::Identifier if !t.asm && !txt.starts_with('&') => o.push_str("\u{e9}\u{20ac}"),
+            Kind::Text(r::TextKind::SingleLine) if txt.len() >= 2 && txt.ends_with('\'') && !t.asm => {
+                o.pop();
+                o.push_str("\u{e9}\u{20ac}'");
+            }
+            _ => {}
+        }
+    }
+    o.push_str(&x[pos..]);
+    o
+}
+
+/// C11 on a text that may hold non-ASCII characters: widths are bytes per line, which is what the
+/// wrapper itself counts (token content length in bytes)
+pub fn c11_dense_bytes(x: &str, widths: &[u32], base: &Cfg, tag: Option<&'static str>, ctx: &mut Ctx) {
+    c11_dense_impl(x, widths, base, tag, true, ctx)
+}
+
 pub fn c11_dense(x: &str, widths: &[u32], base: &Cfg, tag: Option<&'static str>, ctx: &mut Ctx) {
+    c11_dense_impl(x, widths, base, tag, false, ctx)
+}
+
+fn c11_dense_impl(x: &str, widths: &[u32], base: &Cfg, tag: Option<&'static str>, non_ascii: bool, ctx: &mut Ctx) {
     use std::hash::{Hash, Hasher};
     pasfmt_core::verif::reset();
     let outs: Vec<String> = widths.iter().map(|w| ctx.fmt(&base.with(|c| c.wrap = *w), x)).collect();
@@ -1176,7 +1209,7 @@ pub fn c11_dense(x: &str, widths: &[u32], base: &Cfg, tag: Option<&'static str>,
     } else {
         tag
     };
-    if !x.is_ascii() {
+    if !x.is_ascii() && !non_ascii {
         ctx.count("c11.skipped-non-ascii");
         return;
     }
